@@ -74,6 +74,28 @@ def swizzle_masks(n, rng, nrand, exhaustive_small):
     return out
 
 
+def pair_masks(n, rng, nrand):
+    """index vectors made of contiguous pairs (s, s+1): aligned ones (s even), and near misses of that pattern"""
+    h = n // 2
+    def mk(starts):
+        return [v for s in starts for v in (s, s + 1)]
+    ms = [mk([2 * k for k in range(h)]), mk([2 * (h - 1 - k) for k in range(h)]), mk([2 * ((k + 1) % h) for k in range(h)]), mk([0] * h), mk([n - 2] * h)]
+    for _ in range(nrand):
+        ms.append(mk([2 * rng.randrange(h) for _ in range(h)]))
+    ms.append(mk([1] * h))                                                   # every pair starts at an odd lane
+    ms.append(mk([(2 * k + 1) % (n - 2) for k in range(h)]))
+    for k in range(h):                                                      # one odd-aligned pair at every pair position
+        st = [2 * j for j in range(h)]
+        st[k] = (2 * k + 1) % (n - 1) if 2 * k + 2 < n else n - 3
+        ms.append(mk(st))
+    for _ in range(nrand):
+        ms.append(mk([rng.randrange(n - 1) for _ in range(h)]))
+    m = mk([2 * k for k in range(h)])
+    m[1] = 0                                                                # a broken pair
+    ms.append(m)
+    return ms
+
+
 def shuffle_masks(n, rng, nrand, exhaustive_small):
     if n <= 2 and exhaustive_small:
         return [[(v // (2 * n) ** i) % (2 * n) for i in range(n)] for v in range((2 * n) ** n)]
@@ -148,6 +170,11 @@ def generate(ctx, acc):
                 if acc.get((acxx, tcxx, "swizzle_ct")):
                     for m in swizzle_masks(n, rng, ctx.q(3, 60), not ctx.quick)[: ctx.q(64, 100000)]:
                         out.append('PERM_SWZ(%s, "%s", %s)' % (tcxx, name("swizzle_ct", m), ", ".join(map(str, m))))
+                elif an in ("avx512f", "avx512cd", "avx512dq") and tcxx == "uint16_t":
+                    # only masks made of aligned contiguous pairs are accepted here (folded into a 32-bit permute): acceptance is probed per
+                    # mask (PERM_SWZ_IF); the family contains accepted masks and their near misses (pairs starting at an odd lane, broken pairs)
+                    for m in pair_masks(n, rng, ctx.q(4, 24)):
+                        out.append('PERM_SWZ_IF(%s, "%s", %s)' % (tcxx, name("swizzle_ct", m), ", ".join(map(str, m))))
                 if acc.get((acxx, tcxx, "shuffle")):
                     for m in shuffle_masks(n, rng, ctx.q(3, 60), not ctx.quick)[: ctx.q(96, 100000)]:
                         out.append('PERM_SHF(%s, "%s", %s)' % (tcxx, name("shuffle", m), ", ".join(map(str, m))))
